@@ -42,3 +42,8 @@ def op_contains(a, b):
 def op_iadd(a, b):
     a += b
     return a
+
+
+def assign_attr(a, name, v):
+    setattr(a, name, v)
+    return a
